@@ -16,7 +16,7 @@ func runC02(p *core.Prog, r *core.Result) {
 	r.Decided = []string{
 		"R2.1 no nondeterminism source (clock, pid, random numbers, directory order, addresses, Go-map order into an ordered sink) is reachable from the code that computes or compares stamps",
 		"R2.2 source files are compared by content hash: the verdict 'up to date' is returned exactly on equality of the recorded sum and the sum of the current contents; no modification time is consulted",
-		"R2.3 loading a target rewrites exactly the record it has just read (a load cannot change persisted state)",
+		"R2.3 loading a target rewrites the record it has just read with every decision-relevant field (all but the documentation) unchanged, field by field over the record type: a load cannot drop the stamp dependents compare",
 		"R2.4 both sides of the environment comparison are produced by the same decoder/unpickler, and the persisted stamp by the same pickler as the current one",
 	}
 	r.NotDecided = []string{"that unrelated edits (comments, whitespace, other packages) leave the compiled bytecode and constants of a function unchanged (a property of the Starlark compiler)", "behaviour across process restarts and load interleavings as observed"}
@@ -205,34 +205,103 @@ func checkLoadRewritesRead(p *core.Prog, r *core.Result, rule string) {
 			construct := fmt.Sprintf("dawn.(*%s).load#rewrites-what-it-read-%d", recv, i+1)
 			arg := c.Common().Args[len(c.Common().Args)-1]
 			same := read != nil && arg == extractOf(read, 0)
-			if ld, ok := arg.(*ssa.UnOp); ok && !same && read != nil {
-				// the value was parked in a local: that local must hold exactly the value read, with no field assigned since
-				if cell, ok := ld.X.(*ssa.Alloc); ok {
-					same = true
-					n := 0
-					for _, ref := range *cell.Referrers() {
-						switch x := ref.(type) {
-						case *ssa.Store:
-							if x.Addr == ssa.Value(cell) {
-								n++
-								if x.Val != extractOf(read, 0) {
-									same = false
+			why := ""
+			if !same && read != nil {
+				// field-wise: the record may be rebuilt (in place or through a constructor helper) as long as every
+				// field other than the documentation is the same field of the record read
+				rec := recordOf(c.(*ssa.Call), arg)
+				readVal := extractOf(read, 0)
+				isRead := func(v ssa.Value) bool {
+					if v == readVal {
+						return true
+					}
+					if ld, ok := v.(*ssa.UnOp); ok && ld.Op == token.MUL {
+						if cell, ok := ld.X.(*ssa.Alloc); ok {
+							n := 0
+							for _, ref := range *cell.Referrers() {
+								if st, ok := ref.(*ssa.Store); ok && st.Addr == ssa.Value(cell) {
+									n++
+									if st.Val != readVal {
+										return false
+									}
 								}
 							}
-						case *ssa.FieldAddr:
-							for _, r2 := range *x.Referrers() {
-								if st, ok := r2.(*ssa.Store); ok && st.Addr == ssa.Value(x) {
-									same = false // a field of the copy is modified before it is written back
+							return n == 1
+						}
+					}
+					return false
+				}
+				fieldOfRead := func(v ssa.Value, name string) bool {
+					switch x := v.(type) {
+					case *ssa.Field:
+						_, n := core.FieldOf(x)
+						return n == name && isRead(x.X)
+					case *ssa.UnOp:
+						if fa, ok := x.X.(*ssa.FieldAddr); ok && x.Op == token.MUL {
+							_, n := core.FieldOf(fa)
+							if n != name {
+								return false
+							}
+							if cell, ok := fa.X.(*ssa.Alloc); ok {
+								// the local holding the record read: assigned once, from the read, and this field never assigned
+								cnt, okc := 0, true
+								for _, ref := range *cell.Referrers() {
+									switch y := ref.(type) {
+									case *ssa.Store:
+										if y.Addr == ssa.Value(cell) {
+											cnt++
+											okc = okc && y.Val == readVal
+										}
+									case *ssa.FieldAddr:
+										if _, n2 := core.FieldOf(y); n2 == name {
+											for _, r2 := range *y.Referrers() {
+												if st, ok := r2.(*ssa.Store); ok && st.Addr == ssa.Value(y) {
+													okc = false
+												}
+											}
+										}
+									}
 								}
+								return okc && cnt == 1
 							}
 						}
 					}
-					if n != 1 {
-						same = false
+					return false
+				}
+				same = true
+				whole := 0
+				for _, w := range rec.Whole {
+					if isRead(w) {
+						whole++
+					} else {
+						same, why = false, "the record comes from an unrecognised source"
+					}
+				}
+				st, _ := readVal.Type().Underlying().(*types.Struct)
+				if st == nil {
+					same, why = false, "the record type is not a struct"
+				} else {
+					for k := 0; k < st.NumFields(); k++ {
+						name := st.Field(k).Name()
+						if name == "Doc" {
+							continue // refreshed from the build files for index-only loads; no build decision reads it
+						}
+						v, assigned := rec.Fields[name]
+						switch {
+						case assigned && fieldOfRead(v, name):
+						case !assigned && whole > 0:
+						case assigned:
+							same, why = false, "field "+name+" of the rewritten record is not the "+name+" that was read"
+						default:
+							same, why = false, "field "+name+" of the record read is dropped by the rewrite"
+						}
+						if !same {
+							break
+						}
 					}
 				}
 			}
-			r.Check(same, rule, construct, p.InstrPos(c.(ssa.Instruction)), "the record written back at load time is the value just read, unmodified", "loading rewrites the record with something other than what was read: a mere load changes persisted state (fields such as a pending re-run are lost or altered), so the next build's decisions depend on how often the project was loaded")
+			r.Check(same, rule, construct, p.InstrPos(c.(ssa.Instruction)), "the record written back at load time is the value just read, unmodified", "loading rewrites the record with something other than what was read ("+why+"): a mere load changes persisted state (fields such as a pending re-run or the stamp dependents compare are lost or altered), so the next build's decisions depend on how often the project was loaded")
 			// on the nil-error edge of the read
 			if read != nil {
 				nn, known := p.FactsAt(c.(ssa.Instruction)).ErrNonNil(extractOf(read, 1))
